@@ -2,7 +2,8 @@
 """setup-time sanity: MANIFEST validates against the schema and every check's harness sources exist."""
 import json, os, sys
 sys.path.insert(0, os.path.dirname(os.path.dirname(os.path.abspath(__file__))))
-from vlib.checks import CHECKS
+from vlib.checks import CHECKS, READY
+CHECKS = {k: v for k, v in CHECKS.items() if k in READY}
 V = os.path.dirname(os.path.dirname(os.path.abspath(__file__)))
 m = json.load(open(os.path.join(V, "MANIFEST.json")))
 ids = {c["property_id"] for c in m["checks"]}
